@@ -283,7 +283,7 @@ def bounded(run):
     if errs:
         run.note(f"bounded stand-in worker errors: {errs[:2]}")
     run.bounded_result("derivatives: skew, sum-zero, dead grains, linearity, sign, finiteness (native, compiled)", f"{MOD}.derivatives",
-                       f"{ev} random calls: 6 fabrics x 2 regimes, n_grains in 1..40 (one 2000), axis-aligned and zero-volume grains, L incl. rank-1/zero-trace/zero", ev, fails, distinct)
+                       f"{ev} random calls: 6 fabrics x 2 regimes, n_grains in 1..40 and 1024/2000/4096/4097/8192, axis-aligned and zero-volume grains, L incl. rank-1/zero-trace/zero", ev, fails, distinct)
 
 
 def nat_sweep(seed, count):
@@ -295,7 +295,8 @@ def nat_sweep(seed, count):
     for it in range(count):
         ph, fb = CL.PAIRS[rng.integers(6)]
         regime = int(rng.choice([4, 6]))
-        n = int(rng.choice([1, 2, 3, 5, 17, 40])) if it else 2000
+        # mostly small aggregates; some large ones, also sizes that are multiples of powers of two (block-wise accumulations)
+        n = int(rng.choice([1, 2, 3, 5, 17, 40])) if it % 25 else [2000, 4096, 8192, 1024, 4097][(it // 25 + seed) % 5]
         As = np.array([CL.random_orientation(rng) for _ in range(n)])
         kind = rng.integers(5)
         if kind == 0:  # axis-aligned grains (signed permutation matrices) with vanishing resolved shear
